@@ -659,7 +659,14 @@ func (ea *functionAnalysisState) transferCallStaticCallee(instrType ssa.CallInst
 		// value, as we can directly get the corresponding node.
 		if mkClosure, ok := instrType.Common().Value.(*ssa.MakeClosure); ok {
 			for _, fv := range mkClosure.Bindings {
-				freeVars = append(freeVars, ea.nodes.ValueNode(fv))
+				// The callee only has a node for a free variable whose type is tracked (see the free variables
+				// in the initial graph of a function): a binding that is not pointer-like, e.g. the string
+				// receiver of a bound method value, has no node on either side.
+				if IsEscapeTracked(fv.Type()) {
+					freeVars = append(freeVars, ea.nodes.ValueNode(fv))
+				} else {
+					freeVars = append(freeVars, nil)
+				}
 			}
 		}
 		g.Call(g.Clone(), nil, args, freeVars, rets, summary.finalGraph)
